@@ -260,12 +260,12 @@ Ltac fn_loops :=
   repeat match goal with
          | |- ?L = ?R =>
              match L with
-             | context [fold_left ?f1 ?l ?a] =>
+             | context [@fold_left ?A ?B ?f1 ?l ?a] =>
                  match R with
-                 | context [fold_left ?f2 l a] =>
+                 | context [@fold_left ?A2 ?B2 ?f2 ?l2 ?a2] =>
                      first [ constr_eq f1 f2; fail 1
                            | let H := fresh "Hloop" in
-                             assert (H : fold_left f1 l a = fold_left f2 l a) by (apply fold_left_ext; solve [fn_pointwise]);
+                             assert (H : @fold_left A B f1 l a = @fold_left A2 B2 f2 l2 a2) by (apply fold_left_ext; solve [fn_pointwise]);
                              rewrite H; clear H ]
                  end
              end
